@@ -10,14 +10,18 @@ environment is a parameter: it may depend on the moment (`tick` counts the syste
 — for the write — on the length of the file and of the request.  The error returns of the Go code are transcribed branch
 for branch (`return 0, errs.Wrap(err)` after MkdirAll / OpenFile / rotate, `r.file = nil` before the Close error is
 looked at, `r.size += int64(n)` after a short write).  With the calm environment this is the old model
-(`Lemmas/RotationErr.lean: writeE_calm`). -/
+(`Lemmas/RotationErr.lean: writeE_calmFrom`, `runE_calmFrom`). -/
 namespace Rot
 
-/-- the system calls of rotator.go; `remove i` / `rename i j` name the files by index (0 = `path`, i = `path-i`) -/
+/-- the system calls of rotator.go; `remove i ex` / `rename i j ex` name the files by index (0 = `path`, i = `path-i`);
+    `ex` tells the environment whether the file to remove / the source of the rename exists at that moment.  The
+    environment decides whether the call fails with an error OTHER than "not exist" (for a missing file the kernel
+    reports "not exist" — which the code ignores — unless something fails before the lookup, e.g. an unreachable
+    directory). -/
 inductive Sys where
   | mkdirAll | stat | openFile | closeFd | syncFd | writeFd
-  | remove (i : Nat)
-  | rename (i j : Nat)
+  | remove (i : Nat) (ex : Bool)
+  | rename (i j : Nat) (ex : Bool)
 deriving DecidableEq, Repr
 
 /-- the environment.  `fails t c`: the call `c` made as the `t`-th system call fails (no effect, error returned).
@@ -69,7 +73,7 @@ def mvD (f : Files) (old new : Nat) : Dir :=
 def renameChainE (env : Env) (f : Files) (t : Nat) : Nat → Files × Nat × Option Sys
   | 0 => (f, t, none)
   | i+1 =>
-    if env.fails t (.rename i (i+1)) then (f, t + 1, some (.rename i (i+1)))
+    if env.fails t (.rename i (i+1) (f i).isSome) then (f, t + 1, some (.rename i (i+1) (f i).isSome))
     else renameChainE env (mvD f i (i+1)).get (t + 1) i
 
 /-- `rotate()`: Close (the handle is forgotten BEFORE the error is looked at), Remove of `path` (no backups) or of
@@ -79,7 +83,8 @@ def rotateE (cfg : Cfg) (env : Env) (s : StE) : StE × Option Sys :=
   if s.st.isOpen && env.fails s.tick .closeFd then ({ st := { s.st with isOpen := false }, tick := t0 }, some .closeFd)
   else
     let idx := if cfg.maxBackups < 1 then 0 else cfg.maxBackups
-    if env.fails t0 (.remove idx) then ({ st := { s.st with isOpen := false }, tick := t0 + 1 }, some (.remove idx))
+    let ex := (s.st.files idx).isSome
+    if env.fails t0 (.remove idx ex) then ({ st := { s.st with isOpen := false }, tick := t0 + 1 }, some (.remove idx ex))
     else if cfg.maxBackups < 1 then
       ({ st := { files := s.st.files.set idx none, isOpen := false, size := 0 }, tick := t0 + 1 }, none)
     else
@@ -162,5 +167,20 @@ def ackedE (cfg : Cfg) (env : Env) (s : StE) : List Op → List Bytes
   | [] => []
   | .write b :: os => b.take (writeE cfg env s b).n :: ackedE cfg env (writeE cfg env s b).s os
   | o :: os => ackedE cfg env (applyE cfg env s o).s os
+
+/-- which Go calls a constructor of `Sys` stands for: (receiver, name) with receiver `os` for a function of package os,
+    `File` for a method of `*os.File` (the size of the log file may be asked of the path or of the descriptor) -/
+def Sys.goCalls : Sys → List (String × String)
+  | .mkdirAll => [("os", "MkdirAll")]
+  | .stat => [("os", "Stat"), ("File", "Stat")]
+  | .openFile => [("os", "OpenFile")]
+  | .closeFd => [("File", "Close")]
+  | .syncFd => [("File", "Sync")]
+  | .writeFd => [("File", "Write")]
+  | .remove _ _ => [("os", "Remove")]
+  | .rename _ _ _ => [("os", "Rename")]
+
+/-- one representative of every constructor -/
+def Sys.kinds : List Sys := [.mkdirAll, .stat, .openFile, .closeFd, .syncFd, .writeFd, .remove 0 true, .rename 0 1 true]
 
 end Rot
